@@ -168,17 +168,23 @@ def _plain_get(o, k):
     return o[k]
 
 # ---------------------------------------------------------------- running the real code
+DRAW = [0]
+def _draw(n): return DRAW[0]
+_draw_installed = [False]
 def force_draw(r):
-    import beartype._check.code.codemain as cm
-    cm.getrandbits = lambda n: r
-    try:
-        import beartype._check.checkmake as ck
-        if hasattr(ck, 'getrandbits'): ck.getrandbits = lambda n: r
-    except Exception: pass
-    import beartype._check.code.codescope as cs
+    """force every sampler draw of generated checkers / wrappers to r: the name `getrandbits` is rebound ONCE (to a function
+    reading DRAW[0]) in every beartype module that imported it, so that checkers generated earlier keep following DRAW"""
+    DRAW[0] = r
+    if _draw_installed[0]: return
+    import beartype._check.code.codemain
     for mod in list(sys.modules.values()):
         if mod is not None and getattr(mod, '__name__', '').startswith('beartype') and 'getrandbits' in getattr(mod, '__dict__', {}):
-            mod.__dict__['getrandbits'] = lambda n: r
+            mod.__dict__['getrandbits'] = _draw
+    _draw_installed[0] = True
+    try:
+        from beartype._util.cache.utilcacheclear import clear_caches
+        clear_caches()
+    except Exception: pass
 
 def real_verdict(obj, hint, conf, r):
     """-> ('accept'|'reject'|'raise', exception or None) of is_bearable on the real tree with the sampler draw forced to r"""
